@@ -1471,7 +1471,7 @@ func (cr *c09Runner) corrValues(dir string, got *c09Obs, m c09Mut) {
 			default:
 				impl = "ok " + rv.Val
 			}
-			cr.r.Corr(fmt.Sprintf("c09 rv %s %d %s %s %s %s %s", emb, s.cfg.MaxIO, f[2], f[3], f[4], hx.Csv(logs), hx.Hex(txLog)), impl)
+			cr.r.Corr(fmt.Sprintf("c09 rv %s %d %d %s %s %s %s %s", emb, s.cfg.MaxIO, c09MaxValLen, f[2], f[3], f[4], hx.Csv(logs), hx.Hex(txLog)), impl)
 			cr.r.Count("tie.rv." + strings.SplitN(impl, " ", 2)[0])
 		}
 	}
